@@ -83,10 +83,18 @@ def simplifier_cases(ctx, budget):
     import kneeliverse.rdp as rdp
     import kneeliverse.metrics as metrics
     rng = ctx.rng
-    for _ in range(budget):
+    nlong = 2 if ctx.tier == 'quick' else 12
+    for it in range(budget + nlong):
         n = rng.randrange(3, 40)
         pts, fam = gen.dyadic_curve(rng, n)
-        if rng.random() < 0.2:
+        if it < nlong:
+            # a LONG trace (thousands of points; beyond 4096 and 8192): whatever a simplifier does differently on long inputs - windows, chunks,
+            # strides - must still hand out a removed table that accounts for every point
+            n = rng.choice([rng.randrange(4097, 4200), rng.randrange(5000, 9000), rng.randrange(8193, 8300)])
+            xs_ = np.arange(n, dtype=float)
+            pts = np.column_stack([xs_, np.round(65536.0 * np.exp(-rng.choice([0.0005, 0.001]) * xs_)) / 16.0 + np.array([rng.randrange(0, 4) / 4.0 for _ in range(n)])])
+            fam = 'long-trace'
+        elif rng.random() < 0.2:
             # exactly straight / flat runs sampled unevenly (one gap far wider than the rest): the simplifiers' perfect-fit fall-back path
             gaps = [rng.choice([1, 1, 2]) for _ in range(n - 1)]
             gaps[rng.choice([n - 2, n - 2, rng.randrange(0, n - 1)])] = rng.choice([16, 64, 1000])
@@ -97,6 +105,8 @@ def simplifier_cases(ctx, budget):
                 y[rng.randrange(1, n - 1)] += rng.choice([1.0, 4.0])
             pts, fam = np.column_stack([x, y]).astype(float), 'straight-uneven-x'
         which = rng.choice(['rdp', 'rdp_fixed', 'grdp', 'mp_grdp', 'min_point_rdp', 'min_point_rdp'])
+        if it < nlong:
+            which = 'rdp' if it % 2 == 0 else rng.choice(['rdp_fixed', 'grdp', 'mp_grdp'])
         case = dict(points=pts.tolist(), simplifier=which)
         # every distance / cost / ordering option, not only the defaults
         dist_ = rng.choice(list(rdp.Distance))
@@ -108,12 +118,12 @@ def simplifier_cases(ctx, budget):
                 if which == 'rdp':
                     return rdp.rdp(pts, t=rng.choice([0.01, 0.1, 0.5]), distance=dist_, cost=cost_)
                 if which == 'rdp_fixed':
-                    return rdp.rdp_fixed(pts, length=rng.randrange(2, n + 1), distance=dist_, order=order_)
+                    return rdp.rdp_fixed(pts, length=rng.randrange(2, min(n, 60) + 1), distance=dist_, order=order_)
                 if which == 'grdp':
                     return rdp.grdp(pts, t=rng.choice([0.01, 0.1, 0.5]), distance=dist_, cost=cost_, order=order_)
                 if which == 'mp_grdp':
-                    return rdp.mp_grdp(pts, t=rng.choice([0.01, 0.1]), min_points=rng.randrange(2, n + 1), distance=dist_, cost=cost_, order=order_)
-                return rdp.min_point_rdp(pts, t=[rng.choice([0.5, 0.2, 0.1]), rng.choice([0.05, 0.01])], min_points=rng.randrange(2, n + 1))
+                    return rdp.mp_grdp(pts, t=rng.choice([0.01, 0.1]), min_points=rng.randrange(2, min(n, 60) + 1), distance=dist_, cost=cost_, order=order_)
+                return rdp.min_point_rdp(pts, t=[rng.choice([0.5, 0.2, 0.1]), rng.choice([0.05, 0.01])], min_points=rng.randrange(2, min(n, 60) + 1))
             (reduced, removed), _ = core.guarded(call, 64 * (2 * n) + 1024)
         except core.LoopBudgetExceeded:
             ctx.tag('simplifier-loop-budget(C01 territory)')
